@@ -519,8 +519,26 @@ class SInt(SNum):
 
 
 class SNpInt(SInt):
-    """a numpy integer scalar (numpy.int64(...)): behaves like an integer but is NOT an instance of the builtin int"""
+    """a numpy integer scalar (numpy.int64(...)): behaves like an integer but is NOT an instance of the builtin int;
+    integer arithmetic with builtin / numpy integers yields a numpy integer again (numpy's scalar promotion)"""
     __slots__ = ()
+
+
+def _np_closed(name):
+    base = getattr(SInt, name)
+
+    def op(self, *a):
+        r = base(self, *a)
+        if type(r) is SInt and all(isinstance(x, (int, SInt)) and not isinstance(x, bool) for x in a):
+            return SNpInt(r.z)
+        return r
+    op.__name__ = name
+    return op
+
+
+for _n in ("__add__", "__radd__", "__sub__", "__rsub__", "__mul__", "__rmul__", "__floordiv__", "__rfloordiv__", "__mod__", "__rmod__", "__neg__"):
+    if hasattr(SInt, _n):
+        setattr(SNpInt, _n, _np_closed(_n))
 
 
 class SReal(SNum):
